@@ -476,6 +476,9 @@ impl<A: Subject> Runner<A> {
     if or & O_SHADOW != 0 && !self.tainted {
       for l in self.all_live() {
         let (off, cap, _, _) = l.m;
+        if off + cap > self.a.capacity() {
+          continue;
+        }
         if cap > 0 && self.bytes(off, cap).iter().any(|b| *b != l.pat) {
           v.push(Viol {
             flag: O_SHADOW,
@@ -894,7 +897,12 @@ impl<A: Subject> Runner<A> {
             }
           }
         }
-        if or & O_ZERO != 0 && is_bytes && hcap > 0 && self.bytes(off, hcap).iter().any(|b| *b != 0) {
+        // a handle that leaves the arena is reported by the shadow oracle; never touch its bytes
+        let inside = off + hcap <= cap as usize && off + hcap <= a.capacity();
+        if !inside && or & (O_SHADOW | O_ERRSTATE) != 0 && or & O_SHADOW == 0 {
+          v.push(Viol { flag: O_ERRSTATE, class: "out-of-bounds".into(), msg: format!("{} -> [{},{}) outside the arena (capacity {})", op.short(), off, off + hcap, cap) });
+        }
+        if or & O_ZERO != 0 && is_bytes && hcap > 0 && inside && self.bytes(off, hcap).iter().any(|b| *b != 0) {
           v.push(Viol { flag: O_ZERO, class: "not-zeroed".into(), msg: format!("{} -> [{},{}) not zero-filled: {:x?}", op.short(), off, off + hcap, self.bytes(off, hcap)) });
         }
         if or & O_LAYOUT != 0 && !self.first_alloc_done && !zero_req && pre.nodes.is_empty() {
@@ -921,7 +929,7 @@ impl<A: Subject> Runner<A> {
           self.slow_paths += 1;
         }
         let pat = self.next_pat();
-        if hcap > 0 && !a.read_only() {
+        if hcap > 0 && !a.read_only() && inside {
           self.fill(off, hcap, pat);
         }
         let refs_delta = a.refs().wrapping_sub(refs_before);
@@ -1037,7 +1045,7 @@ impl<A: Subject> Runner<A> {
     }
     let mut l = self.slots.remove(i);
     let (off, hcap, boff, bcap) = l.m;
-    if or & O_SHADOW != 0 && !self.tainted && hcap > 0 && self.bytes(off, hcap).iter().any(|b| *b != l.pat) {
+    if or & O_SHADOW != 0 && !self.tainted && hcap > 0 && off + hcap <= a.capacity() && self.bytes(off, hcap).iter().any(|b| *b != l.pat) {
       v.push(Viol { flag: O_SHADOW, class: "live-bytes-changed".into(), msg: format!("bytes of [{},{}) changed before its release", off, off + hcap) });
     }
     let dc_before = self.dc.get();
